@@ -4,7 +4,8 @@
    every set of direct and pipelined calls and every caller order) and every reachable
    configuration, i.e. every schedule of the threads of coq/Server/Server.v. *)
 From CV Require Import Server.Server Server.ServerProofs Server.ServerSteps Server.ServerStart Server.ServerTheorems
-  Server.ServerOnce Server.ServerExamples.
+  Server.ServerOnce Server.ServerExamples Server.AqInv Server.AqTheorems Server.ServerOrder Server.OrderTheorems
+  Server.OnceTheorems.
 From Coq Require Import List Arith Bool.
 Import ListNotations.
 
@@ -54,27 +55,73 @@ Theorem C12_shutdown_cancels : forall P c c', reachable P c -> step P c TShutdow
 Proof. exact shutdown_cancels_lemma. Qed.
 Print Assumptions C12_shutdown_cancels.
 
-(* each_call_once, proved part: a DIRECT call (Server.Send / Server.Recv) never completes twice,
-   has completed exactly once from the moment it is rejected by start or its goroutine has
-   passed Returner.Return, and in particular once its Send/Recv has returned and its goroutine
-   has terminated.
-   Missing for the full statement (hence _partial): the same for pipelined calls (their
-   completions go through the answerQueue / returnEmbargoer; checked by the correspondence
-   run only), and liveness (every call eventually reaches that stage: no_stuck, not proved). *)
-Theorem C12_each_call_once_partial : forall P c x, reachable P c -> p_kind P x = Direct ->
-  length (compl c x) <= 1 /\ (finished_direct c x = true -> length (compl c x) = 1) /\
-  (finished_direct c x = false -> compl c x = []).
-Proof. exact direct_once_lemma. Qed.
-Print Assumptions C12_each_call_once_partial.
+(* gate, same-caller half: [before P i j] = i was issued before j by the same caller.
+   A call is entered only after all earlier calls of its caller have returned from
+   Send/Recv/PipelineRecv; so when j's implementation has been started every earlier direct call
+   i of the same caller was rejected or has acknowledged / returned; and i's implementation can
+   only start while j has not even been entered (calls are seen in the order they were made). *)
+Theorem C12_program_order : forall P c i j, reachable P c -> before P i j -> entered P c j ->
+  call_returned P c i = true.
+Proof. exact program_order_lemma. Qed.
+Print Assumptions C12_program_order.
+
+Theorem C12_gate_same_caller : forall P c i j, reachable P c -> before P i j ->
+  p_kind P i = Direct -> p_kind P j = Direct -> ipc c j <> INone ->
+  spc c i = SDone /\ ipc c i <> IRun.
+Proof. exact gate_same_caller_lemma. Qed.
+Print Assumptions C12_gate_same_caller.
+
+Theorem C12_seen_in_order : forall P c t c' i j, reachable P c -> before P i j -> p_kind P i = Direct ->
+  step P c t = Some c' -> ipc c i = INone -> ipc c' i <> INone -> ~ entered P c j.
+Proof. exact seen_in_order_lemma. Qed.
+Print Assumptions C12_seen_in_order.
+
+(* each_call_once (safety): in every reachable configuration every call - direct or pipelined -
+   has had its Returner.Return called at most once, and exactly once iff it is at or past the stage
+   [finished] (rejected by start / goroutine past Return / pipelined call in PDone). That every
+   call reaches that stage is liveness: see no_stuck below. *)
+Theorem C12_each_call_once : forall P c x, reachable P c ->
+  length (compl c x) <= 1 /\ (finished P c x = true <-> length (compl c x) = 1).
+Proof. exact each_call_once_lemma. Qed.
+Print Assumptions C12_each_call_once.
 
 Theorem C12_direct_done_once : forall P c x, reachable P c -> p_kind P x = Direct ->
   spc c x = SDone -> (ipc c x = INone \/ ipc c x = IDone) -> length (compl c x) = 1.
 Proof. exact direct_done_once_lemma. Qed.
 Print Assumptions C12_direct_done_once.
 
-(* queue_order and no_stuck are NOT proved (no theorem is stated for them here); the model's
-   behaviour for them is exercised by the correspondence run (the harness checks queue order,
-   delivery target and absence of stuck histories on the implementation's own event log). *)
+(* queue_order: [enqs a tr] = the calls queued on answer a in the order they were queued,
+   [procs a tr] = the queue entries processed by a's fulfill/reject in processing order (both
+   projections of the event trace). The processed calls are always a prefix of the queued ones,
+   and all of them once the drain loop has ended; processing an entry delivers it (or fails it with
+   the answer's error / the error of the queued call it was pipelined on); a call that arrives while
+   the queue is draining is passed through only after the whole queue has been processed. *)
+Theorem C12_queue_order_prefix : forall P c a, reachable P c ->
+  procs a (trace c) = firstn (qidx (aq_ph c a) (length (aq_q c a))) (enqs a (trace c)).
+Proof. exact queue_order_prefix_lemma. Qed.
+Print Assumptions C12_queue_order_prefix.
+
+Theorem C12_queue_order_complete : forall P c a, reachable P c -> aq_ph c a = ADrained ->
+  procs a (trace c) = enqs a (trace c).
+Proof. exact queue_order_complete_lemma. Qed.
+Print Assumptions C12_queue_order_complete.
+
+Theorem C12_queue_process_step : forall P c a c' k p, reachable P c -> step P c (TImpl a) = Some c' ->
+  ipc c a = IDrain -> aq_ph c a = ADraining k -> nth_error (aq_q c a) k = Some p ->
+  ppc c p = PQueued /\ compl c p = [] /\
+  procs a (trace c') = procs a (trace c) ++ [p] /\
+  if ierr c a then ppc c' p = PDone /\ compl c' p = [CErr a]
+  else (ppc c' p = PDelivered /\ exists d, hd_error (trace c') = Some (EvDeliver p d))
+       \/ (ppc c' p = PEmbRet /\ exists o, tret c' p = TErr o).
+Proof. exact process_step_lemma. Qed.
+Print Assumptions C12_queue_process_step.
+
+Theorem C12_passthrough_after_queue : forall P c p c', reachable P c -> step P c (TPipe p) = Some c' ->
+  ppc c p = PWaitReady ->
+  if ierr c (proot c p) then ppc c' p = PDone /\ hd_error (compl c' p) = Some (CErr (proot c p))
+  else aq_ph c (proot c p) = ADrained /\ procs (proot c p) (trace c) = enqs (proot c p) (trace c).
+Proof. exact passthrough_after_queue_lemma. Qed.
+Print Assumptions C12_passthrough_after_queue.
 
 (* non-vacuity: the cap is reached, Shutdown waits for a running call; and the pre-fix variant of
    queueCaller.PipelineRecv (p_fixed = false) delivers to the wrong answer *)
